@@ -1,31 +1,17 @@
-"""Regenerates MANIFEST.json from the table below (kept valid at all times)."""
+"""Regenerates MANIFEST.json (kept valid at all times) from the sidecar files
+harness/props/cXX.manifest.json ({text, note, technique, ref}); a property without a sidecar is listed
+under not_applicable with the reason in NOT_CLAIMED (or the default)."""
 import json
 from pathlib import Path
 
 V = Path(__file__).resolve().parents[1]
-CLAIMED = {
-    "C04": dict(
-        text="Lean 4 theorems over the K1 circuit model: every topological order of the wire DAG, every "
-             "group_operations split and the GBS measurement collection keep the command multiset and the order of "
-             "dependent commands (all circuits, all schedules); tied to program_utils/gbs.py by an exact "
-             "correspondence run and a proved certificate checker applied to every list the real code returns.",
-        note="Trusted: Lean kernel + {propext, Classical.choice, Quot.sound}; correspondence harness; NetworkX only "
-             "trusted to return a list (validated per call). gaussian_merge's reordering is checked under C11.",
-        technique="Lean 4 proof (trace-monoid reordering lemma, induction) + model/code correspondence",
-        ref="DESIGN.md §3 K1, §4 C04"),
-    "C18": dict(
-        text="Lean 4 theorems over the model of Program.__eq__ and program_equivalence: equality implies field-by-field "
-             "identical commands (hence equal meaning), is reflexive and symmetric; DAG-isomorphism equivalence implies "
-             "equal meaning in every monoid interpretation that depends only on the compared attributes and commutes on "
-             "disjoint wires (via the K1 reordering theorem). Exact correspondence on generated (base, variant) pairs; "
-             "oracle runs both programs whenever the real comparison says equal/equivalent.",
-        note="Trusted: Lean kernel + standard axioms; correspondence harness; NetworkX is_isomorphic (cross-checked by the "
-             "model's brute-force isomorphism search on <=7 commands); symmetric-gate list is a physical assumption. "
-             "Completeness direction (reorder => equivalent) proved only under an edge-set hypothesis (…_partial), "
-             "checked on every generated reorder.",
-        technique="Lean 4 proof (soundness of comparison via trace-monoid lemma) + model/code correspondence",
-        ref="DESIGN.md §3 K1, §4 C18"),
-}
+CLAIMED = {}
+for f in sorted((V / "harness" / "props").glob("c*.manifest.json")):
+    CLAIMED[f.name.split(".")[0].upper()] = json.loads(f.read_text())
+NOT_CLAIMED = {}
+nc = V / "harness" / "props" / "not_claimed.json"
+if nc.exists():
+    NOT_CLAIMED = json.loads(nc.read_text())
 PENDING_REASON = "check not built yet in this round; the Lean model for its core is still under construction"
 
 props = [json.loads(l) for l in (V / "properties.jsonl").read_text().splitlines() if l.strip()]
@@ -40,7 +26,7 @@ for p in props:
             engine="lean4-sfv", level_claimed=dict(category="proof", text=c["text"], design_ref=c["ref"]),
             level_note=c["note"], technique=c["technique"]))
     else:
-        na.append(dict(property_id=pid, reason=PENDING_REASON))
+        na.append(dict(property_id=pid, reason=NOT_CLAIMED.get(pid, PENDING_REASON)))
 m = dict(
     version=1, setup_cmd="./check --setup",
     hooks=dict(guard="SF_VERIF", enable="no source hooks: observation is done by wrapping objects at run time",
